@@ -321,9 +321,10 @@ func (w *c15World) runCase(t *testing.T, cs *c15Case) c15Obs {
 // ---------------------------------------------------------------- generation
 
 type shadowDenom struct {
-	denom  string
-	admin  int // -1 unknown / renounced
-	former []int
+	denom   string
+	admin   int // -1 unknown / renounced
+	former  []int
+	holders []string // targets the admin minted to ("" = the admin itself)
 }
 
 type c15Gen2 struct {
@@ -433,7 +434,7 @@ func (g *c15Gen2) target() string {
 
 func (g *c15Gen2) op() c15Op {
 	r := g.r
-	switch r.Pick(16, 26, 20, 15, 8, 15) {
+	switch r.Pick(10, 28, 22, 15, 8, 15) {
 	case 0:
 		op := c15Op{T: "create", Sender: g.anyUser(), Sub: subs[r.Intn(len(subs))]}
 		d := fmt.Sprintf("tf/@%d/%s", op.Sender, op.Sub)
@@ -449,11 +450,22 @@ func (g *c15Gen2) op() c15Op {
 		return op
 	case 1:
 		d, sd := g.pickDenom()
-		return c15Op{T: "mint", Sender: g.pickSender(sd), Denom: d, Amt: g.amount(), Target: g.target()}
+		op := c15Op{T: "mint", Sender: g.pickSender(sd), Denom: d, Amt: g.amount(), Target: g.target()}
+		if sd != nil && op.Sender == sd.admin && op.Amt > 0 {
+			h := op.Target
+			if h == "" {
+				h = fmt.Sprintf("@%d", op.Sender)
+			}
+			sd.holders = append(sd.holders, h)
+		}
+		return op
 	case 2:
 		d, sd := g.pickDenom()
 		op := c15Op{T: "burn", Sender: g.pickSender(sd), Denom: d, Amt: g.amount(), Target: g.target()}
-		if r.Chance(1, 2) && op.Amt > 30 {
+		if sd != nil && len(sd.holders) > 0 && r.Chance(2, 3) {
+			op.Target = sd.holders[r.Intn(len(sd.holders))] // burn from somebody who holds the coin
+		}
+		if r.Chance(2, 3) && op.Amt > 30 {
 			op.Amt = int64(r.Range(1, 30))
 		}
 		return op
@@ -484,11 +496,17 @@ func (g *c15Gen2) op() c15Op {
 		d, sd := g.pickDenom()
 		return c15Op{T: "meta", Sender: g.pickSender(sd), Denom: d, BadMeta: r.Chance(1, 6)}
 	default:
-		d, _ := g.pickDenom()
+		d, sd := g.pickDenom()
+		op := c15Op{T: "burnnative", Sender: g.anyUser(), Denom: d, Amt: g.amount()}
 		if r.Chance(1, 2) {
-			d = []string{"unibi", "ibc/C15X"}[r.Intn(2)]
+			op.Denom = []string{"unibi", "ibc/C15X"}[r.Intn(2)]
+		} else if sd != nil && len(sd.holders) > 0 && r.Chance(1, 2) {
+			h := sd.holders[r.Intn(len(sd.holders))]
+			if len(h) == 2 && int(h[1]-'0') < nUsers {
+				op.Sender = int(h[1] - '0') // a holder burns its own tf coins
+			}
 		}
-		return c15Op{T: "burnnative", Sender: g.anyUser(), Denom: d, Amt: g.amount()}
+		return op
 	}
 }
 
